@@ -158,6 +158,45 @@ def job(j):
     return dict(viols=v, outcome=outcome)
 
 
+def uuid_job(j):
+    """the move shortcut (same inode, size, time-stamp) after the disks' UUID changed: inode numbers of the old file system mean nothing,
+    a file that happens to own the number another look-alike file had must be read, not trusted"""
+    levels, first_uuid, seed = j
+    cfg = Config(levels=levels, ndisks=2)
+    v = []
+    where = "twins exchange inodes, UUID %s -> fake" % ("none" if not first_uuid else "fake")
+    with labmod.Lab(cfg, seed=seed) as L:
+        for d in cfg.disknames:
+            X.apply_op(L, ("write", d, "anchor", 700, 0))
+        mt = (labmod.T0 + 7000) * 10**9 + 123
+        X.apply_op(L, ("writeat", "d1", "tx", 1500, 0, mt))
+        X.apply_op(L, ("writeat", "d1", "ty", 1500, 1, mt))
+        L.extra_opts = []
+        r = L.run("sync")
+        assert r.rc == 0, r.text()
+        X.apply_op(L, ("swapinodes", "d1", "tx", "ty"))
+        L.extra_opts = ["--test-fake-uuid"]
+        res = L.run("sync")
+        c = L.content()
+        moves = len(res.tags.get("scan", "move"))
+        if moves:
+            v.append(dict(kind="inode-move-trusted-across-a-uuid-change", where=where, moves=moves))
+        bs = c.block_size
+        for f in c.disks[b"d1"].files:
+            data = L.read("d1", f.sub.decode())
+            for i, (st, pos, h) in enumerate(f.blocks):
+                if st == C.BLK and P.block_hash(c, pos, data[i * bs:(i + 1) * bs]) != h:
+                    v.append(dict(kind="block-recorded-synced-with-foreign-hash", where=where, file=f.sub.decode(), block=i))
+                    break
+        for o in X.c06(L, where):
+            o["kind"] = "c06-" + o["kind"]
+            v.append(o)
+        chk = L.run("check", "-a")
+        if chk.rc != 0:
+            v.append(dict(kind="check-fails-after-successful-sync", where=where, out=chk.text()[-300:]))
+    return dict(viols=v, outcome=(res.rc, moves, False))
+
+
 def run(ctx):
     tier = ctx.tier
     levels = [1] if tier == "quick" else [1, 2]
@@ -192,6 +231,13 @@ def run(ctx):
             ctx.sample(dict(levels=j[0], target=j[1], nsec=j[2], decoy=j[3], partial_source=j[4], flavour=j[5], outcome=r["outcome"]))
     if done < len(jobs):
         ctx.cap("deadline (%d of %d scenarios)" % (done, len(jobs)))
+    for lv in levels:
+        r = uuid_job((lv, False, ctx.seed))
+        evals += 3
+        ctx.nontrivial(("uuid-change", lv))
+        ctx.outcome(r["outcome"])
+        for v in r["viols"]:
+            ctx.violation("C19/uuid-change/%s" % v["kind"], "%s: %s" % (v["kind"], v.get("where")), dict(uuid_change=True, levels=lv, violation=v))
     ctx.set("evaluations", evals)
     ctx.set("scenarios", done)
     ctx.set("states", done)
@@ -201,6 +247,11 @@ def run(ctx):
 
 
 def replay(r):
+    if r.get("uuid_change"):
+        out = uuid_job((r["levels"], False, 0))
+        for v in out["viols"]:
+            print("  ", v)
+        return not out["viols"]
     out = job((r["levels"], r["target"], r["nsec"], r["decoy"], r["partial"], tuple(r["flavour"]), 0, r.get("silent", False), r.get("hashsize", 16), r.get("moved", False)))
     for v in out["viols"]:
         print("  ", v)
